@@ -125,6 +125,12 @@ func genGW(seed uint64, tier string, prop string) Case {
 			c.Ops = append(c.Ops, Op{K: "are_keys", A: []int64{sw, key(), key()}})
 		case 8:
 			c.Ops = append(c.Ops, Op{K: "del", A: []int64{sw, key(), key()}})
+			if r.chance(1, 4) {
+				// remove, re-create and remove the same key again in one go (within one write interval when there is one)
+				k := c.Ops[len(c.Ops)-1].A[1]
+				c.Ops = append(c.Ops, Op{K: "set", A: []int64{sw, k, int64(r.intn(len(valueKinds))), int64(r.intn(6)), 1, 1, 0, 0}})
+				c.Ops = append(c.Ops, Op{K: "del", A: []int64{sw, k, k}})
+			}
 		case 9:
 			cond := int64(0)
 			if r.chance(1, 3) {
